@@ -129,11 +129,21 @@ let () =
       (* ---- searches *)
       List.iter (fun s ->
           match String.split_on_char ':' s with
-          | [kind; qs; ks; acts; rets; idss] ->
+          | [kind0; qs; ks; acts; rets; idss] ->
             incr cases;
+            (* the tag after the kind letter names the history the trace was observed in (o = outer
+               search with searches nested in its callback, i = inner search, c = concurrent); the
+               model judges every trace alike: a search is a function of (tree, query, script) *)
+            let kind = String.sub kind0 0 1 in
+            (match String.sub kind0 1 (String.length kind0 - 1) with
+             | "" -> ()
+             | "o" -> count ("history_outer_" ^ kind)
+             | "i" -> count ("history_inner_" ^ kind)
+             | "c" -> count ("history_concurrent_" ^ kind)
+             | t -> failwith ("bad history tag " ^ t));
             let q = parse_box qs in
             let k = int_of_string ks in
-            let sid = id ^ "/" ^ kind ^ ":" ^ qs ^ ":" ^ ks ^ ":" ^ acts in
+            let sid = id ^ "/" ^ kind0 ^ ":" ^ qs ^ ":" ^ ks ^ ":" ^ acts in
             note_case (Digest.string (key0 ^ s)) (n > 0);
             let go_ids = List.map int_of_string (split_on ',' idss) in
             let unknown = List.filter (fun i -> not (Hashtbl.mem tbl i)) go_ids in
